@@ -11,6 +11,7 @@ type PropDef struct {
 	Level           string
 	Rule            string // how cases are generated and what makes one non-trivial
 	Real, Stub      []string
+	NoMinimise      bool // violations cannot be re-detected in the same process (race reports are once per process)
 	Assumptions     []string
 	Unit            string // "" = runs; "fault_points" = evaluations counts enumerated fault points
 }
@@ -222,6 +223,22 @@ func init() {
 			return runSeq(cs, seqOracles{dump: true, stream: true, roundtrip: true})
 		},
 		Real: realComponents, Stub: []string{"disk: SimFile/SimReader under Buffer/Commit WriteTo/ReadFrom and commit.Log", "foreign producer F (harness code using only the public commit.Buffer Put* API)"},
+	})
+	register(&PropDef{
+		ID: "C17", Quick: 3000, Thorough: 100000, Level: "exploration",
+		Rule: "runs inside a testing/synctest bubble: the collection's own vacuum goroutine runs on the fake clock and becomes one more simulated thread the first time it reaches a hook, so cleanup passes interleave at every hook with 1-3 writers that SetTTL (0.5..100 intervals, 1 h), Extend, delete and update unrelated columns of the same rows (a third of the rows never get a TTL), and readers; only the scheduler advances time (clock pseudo-thread: just before / exactly at / just after a tick, thirds, jumps over several ticks; cleanup interval 1 ms..10 s); oracles: every row the vacuum deletes (seen by the tap inside the block latch) must be live, hold a deadline, and that deadline must be in the past; when the vacuum is back at its ticker every row whose passed deadline was committed before that pass started must be gone; Row.TTL() equals deadline minus fake now; after the last clock fault three more intervals must remove everything overdue; the deadline column is identical on a replica fed the stream and after snapshot/restore; non-trivial = at least one cleanup pass and one commit; distinct = distinct (interleaving signature, end state)",
+		Gen:  func(seed uint64, run int, tier string) *Case { return genTTL(seed, run) },
+		Exec: runTTL,
+		Real: append(append([]string{}, realComponents...), "the collection's vacuum goroutine and its time.Ticker (real code on the fake clock)"),
+		Stub: []string{"clock: testing/synctest fake clock, advanced only by the scheduler", "thread scheduler (vacuum goroutine self-registers at its first hook; quiescence via synctest.Wait)"},
+	})
+	register(&PropDef{
+		ID: "C18", Quick: 2500, Thorough: 80000, Level: "exploration", NoMinimise: true,
+		Rule: "race mode: the simulator is built with -race and the baton is passed through raw pipe system calls from //go:norace functions, so the detector sees no happens-before edge between simulated threads except the library's own synchronisation; 3-6 threads (writers inserting across a block boundary, updating, merging, deleting; readers with point reads, filtered Range, aggregates, key lookups; snapshots; restores into other collections; index and trigger creation/drop) run under a serialised, recorded schedule; oracles: race detector reports whose two accesses lie in the library or its data-structure dependencies (signature = unordered pair of innermost such frames), deadlock (no thread enabled given the real latch words), hang inside package sync, panics; non-trivial = at least one scheduling decision with more than one enabled thread; distinct = distinct interleaving signature",
+		Gen:  func(seed uint64, run int, tier string) *Case { return genRace(seed, run) },
+		Exec: runRace,
+		Real: append(append([]string{}, realComponents...), "Go race detector (ThreadSanitizer runtime)"),
+		Stub: []string{"thread scheduler (raw-pipe baton, no happens-before edges of its own)"},
 	})
 	register(&PropDef{
 		ID: "C07", Quick: 4000, Thorough: 120000, Level: "exploration",
